@@ -26,13 +26,59 @@ import (
 // Single-assignment locals are left alone: they are already transparent
 // (Resolve).
 
-// propagate rewrites decl.Body in place.
+// propagate rewrites decl.Body in place: the body itself, then every function
+// literal in it (each on its own graph, for the variables it declares).
 func propagate(in *Inliner, fn *core.Fn, decl *ast.FuncDecl) {
 	if in.Prog == nil || decl.Body == nil {
 		return
 	}
+	var force map[types.Object]bool
+	for round := 0; round < 3; round++ {
+		force = propagateIn(in, fn, decl.Body, decl.Type.Results, token.NoPos, token.NoPos, force, func() *cfgq.Graph {
+			scratch := *decl
+			in.scratch = append(in.scratch, &scratch)
+			return GraphOf(in.Prog, &core.Fn{Obj: fn.Obj, Decl: &scratch, Pkg: fn.Pkg})
+		})
+		if len(force) == 0 {
+			break
+		}
+	}
+	var lits func(n ast.Node, depth int)
+	lits = func(n ast.Node, depth int) {
+		if depth > 3 {
+			return
+		}
+		for _, lit := range core.FuncLits(n) {
+			lit := lit
+			var force map[types.Object]bool
+			for round := 0; round < 3; round++ {
+				force = propagateIn(in, fn, lit.Body, lit.Type.Results, lit.Pos(), lit.End(), force, func() *cfgq.Graph {
+					// a private copy of the literal node: graphs are cached by address, and the rewrite changes the body
+					scratch := *lit
+					in.scratchLits = append(in.scratchLits, &scratch)
+					return GraphOfLit(in.Prog, fn.Pkg.TypesInfo, &scratch)
+				})
+				if len(force) == 0 {
+					break
+				}
+			}
+			lits(lit.Body, depth+1)
+		}
+	}
+	lits(decl.Body, 0)
+}
+
+// propagateIn rewrites one body. lo..hi, when valid, is the extent of the function literal the body
+// belongs to: only variables declared in there are its own.
+// force names single-assignment locals that must be treated like the others: their definition was
+// rewritten by an earlier round, so engines that remember a local's ORIGINAL definition (pat's transparent
+// locals) would read them wrongly - they are resolved away. The result names the locals whose definitions
+// this round rewrote.
+func propagateIn(in *Inliner, fn *core.Fn, body *ast.BlockStmt, results *ast.FieldList, lo, hi token.Pos, force map[types.Object]bool, mkGraph func() *cfgq.Graph) map[types.Object]bool {
+	if body == nil {
+		return nil
+	}
 	info := fn.Pkg.TypesInfo
-	body := decl.Body
 	// variables that may be written behind the analysis' back: address taken, or assigned inside a closure
 	unsafe := map[types.Object]bool{}
 	assigned := map[types.Object]int{}
@@ -173,8 +219,8 @@ func propagate(in *Inliner, fn *core.Fn, decl *ast.FuncDecl) {
 		return true
 	}
 	ast.Inspect(body, scan)
-	if decl.Type.Results != nil {
-		for _, f := range decl.Type.Results.List {
+	if results != nil {
+		for _, f := range results.List {
 			for _, nm := range f.Names {
 				if o := info.Defs[nm]; o != nil {
 					declared[o] = true
@@ -182,12 +228,29 @@ func propagate(in *Inliner, fn *core.Fn, decl *ast.FuncDecl) {
 			}
 		}
 	}
+	own := map[types.Object]bool{}
+	if lo.IsValid() {
+		core.InspectAll(body, func(n ast.Node) bool {
+			if id, ok := n.(*ast.Ident); ok {
+				if o := info.Defs[id]; o != nil {
+					own[o] = true
+				}
+			}
+			return true
+		})
+	}
 	local := func(o types.Object) bool {
 		v, ok := o.(*types.Var)
-		return ok && !v.IsField() && v.Pkg() != nil && v.Parent() != v.Pkg().Scope()
+		if !ok || v.IsField() || v.Pkg() == nil || v.Parent() == v.Pkg().Scope() {
+			return false
+		}
+		_ = hi
+		// a literal's own variables: declared by an identifier of its body (expanded helpers bring variables
+		// whose declaration positions lie elsewhere)
+		return !lo.IsValid() || own[o]
 	}
 	candidate := func(o types.Object) bool {
-		return local(o) && !unsafe[o] && (assigned[o] >= 2 || declared[o] && assigned[o] >= 1 || copyDef[o])
+		return local(o) && !unsafe[o] && (assigned[o] >= 2 || declared[o] && assigned[o] >= 1 || copyDef[o] || force[o])
 	}
 	any := false
 	for o := range assigned {
@@ -199,13 +262,11 @@ func propagate(in *Inliner, fn *core.Fn, decl *ast.FuncDecl) {
 		}
 	}
 	if !any {
-		return
+		return nil
 	}
-	scratch := *decl
-	in.scratch = append(in.scratch, &scratch)
-	g := GraphOf(in.Prog, &core.Fn{Obj: fn.Obj, Decl: &scratch, Pkg: fn.Pkg})
+	g := mkGraph()
 	if g == nil || g.CFG == nil {
-		return
+		return nil
 	}
 	defsOf := map[types.Object][]cfgq.Point{}
 	isDefOf := func(o types.Object) func(ast.Node) bool {
@@ -565,7 +626,7 @@ func propagate(in *Inliner, fn *core.Fn, decl *ast.FuncDecl) {
 	}
 	ast.Inspect(body, visit)
 	if len(edits) == 0 {
-		return
+		return nil
 	}
 	cl := &cloner{in: in, info: info, pkg: fn.Pkg.Types, subst: map[types.Object]ast.Expr{}}
 	repl := map[ast.Expr]ast.Expr{}
@@ -575,8 +636,45 @@ func propagate(in *Inliner, fn *core.Fn, decl *ast.FuncDecl) {
 		}
 	}
 	if len(repl) == 0 {
-		return
+		return nil
 	}
+	// single-assignment locals whose definition is about to change
+	dirty := map[types.Object]bool{}
+	touched := func(e ast.Expr) bool {
+		hit := false
+		core.InspectAll(e, func(n ast.Node) bool {
+			if x, ok := n.(ast.Expr); ok {
+				if _, has := repl[x]; has {
+					hit = true
+				}
+			}
+			return !hit
+		})
+		return hit
+	}
+	core.InspectAll(body, func(n ast.Node) bool {
+		switch x := n.(type) {
+		case *ast.FuncLit:
+			return false
+		case *ast.AssignStmt:
+			if x.Tok == token.DEFINE && len(x.Lhs) == len(x.Rhs) {
+				for i, l := range x.Lhs {
+					if o := Obj(info, l); o != nil && assigned[o] == 1 && touched(x.Rhs[i]) {
+						dirty[o] = true
+					}
+				}
+			}
+		case *ast.ValueSpec:
+			if len(x.Names) == len(x.Values) {
+				for i, nm := range x.Names {
+					if o := info.Defs[nm]; o != nil && assigned[o] == 0 && touched(x.Values[i]) {
+						dirty[o] = true
+					}
+				}
+			}
+		}
+		return true
+	})
 	replaceExprs(body, func(use ast.Expr) ast.Expr {
 		src, ok := repl[use]
 		if !ok {
@@ -588,6 +686,7 @@ func propagate(in *Inliner, fn *core.Fn, decl *ast.FuncDecl) {
 		}
 		return c
 	})
+	return dirty
 }
 
 // zeroExpr builds the zero value of a basic, pointer-like or interface type as a typed expression.
